@@ -294,7 +294,9 @@ def format_target_spec_trace(scope, root_error, width=TRACE_WIDTH, depth=0, prev
         remark = lambda s, m: s[:depth + 1] + m + s[depth + 2:]
         segments[0] = remark(segments[0], "\\")
         if not last_branch or last_line_error:
-            segments[-1] = remark(segments[-1], "X")
+            # (the last segment may be the text of a nested branch: mark its last line)
+            head, sep, tail = segments[-1].rpartition("\n")
+            segments[-1] = head + sep + remark(tail, "X")
     return "\n".join(segments)
 
 
